@@ -31,6 +31,7 @@ func main() {
 	one := flag.Int("one", -1, "execute only the scenario with this index, in-process, verbosely")
 	selftest := flag.Bool("selftest", false, "determinism self-test of the harness")
 	trace := flag.String("trace", "", "internal: print the trace digests of a scenario file (C24 child process)")
+	inner := flag.String("inner", "", "internal: execute one scenario file and report (child process)")
 	concurrent := flag.String("concurrent", "", "internal: run a C25 class-concurrent scenario file (race-detector build, child process)")
 	flag.Parse()
 
@@ -63,6 +64,19 @@ func main() {
 	}
 	if *concurrent != "" {
 		exit(props.ConcurrentJSON(*concurrent))
+	}
+	if *inner != "" {
+		sc, err := engine.LoadScenario(*inner)
+		if err != nil {
+			fmt.Printf("INNER-DONE harness %v\n", err)
+			exit(2)
+		}
+		p := engine.Lookup(sc.Property)
+		if p == nil {
+			fmt.Printf("INNER-DONE harness unknown property\n")
+			exit(2)
+		}
+		exit(engine.Inner(p, *inner))
 	}
 	if *replay != "" {
 		sc, err := engine.LoadScenario(*replay)
